@@ -5,7 +5,7 @@ import string
 
 from ..core.loader import AnalysisError, own_nodes, norm, enclosing_stmt, ancestors
 from ..core import astq
-from ..core.cfg import ExcHierarchy, guards_of
+from ..core.cfg import ExcHierarchy, guards_of, branch_guards
 from ..core.types import is_inst, BUILTIN_CTORS
 from ..core.dataflow import assigned_value
 from . import common as K
@@ -30,6 +30,7 @@ def run(ctx):
     ctx.each(r18c, ctx, repo)
     ctx.each(r18d, ctx, repo)
     ctx.each(r18e, ctx, repo)
+    ctx.each(r18f, ctx, repo)
     from . import c20
 
     ctx.each(c20.r20i, ctx, repo)  # 'improperly nested cascades' are among the documented rules a loader must refuse
@@ -528,3 +529,118 @@ def r18e(ctx, repo):
             bad.append(dt)
         ctx.check(not bad, "R18e", fi, s_, "units replaced only when absent or equal (as a whole string) to the bare unit type", "`%s` is executed when `%s`, which looks at only part of the units the user entered: a databook stating the same kind of unit on another timescale or denominator is silently relabelled with the framework's units instead of being rejected with InvalidDatabook" % (norm(s_)[:60], bad[0][:100] if bad else ""))
     ctx.require(n >= 1, "R18e: the unit migration in ProjectData.from_spreadsheet was not found")
+
+
+VALIDATOR_MODULES = ["framework", "data", "programs", "cascade", "excel", "parameters"]
+ASSERTING_VALIDATORS = {("data", "ProjectData._validate"): "InvalidDatabook (converted from AssertionError by ProjectData.validate)"}
+
+
+def _words(t):
+    """the words of a message template, independent of the formatting style (%s, {}, f-string holes, quotes)"""
+    t = re.sub(r"%\([^)]*\)[sdfrg]|%[sdfrg]|\{[^}]*\}", " ", t)
+    ws = re.findall(r"[A-Za-z][A-Za-z_]+", t)
+    return " ".join(ws[:12])
+
+
+def _first_text(e):
+    for x in ast.walk(e):
+        if isinstance(x, ast.JoinedStr):
+            parts = [v.value for v in x.values if isinstance(v, ast.Constant) and isinstance(v.value, str)]
+            t = _words(" ".join(parts))
+            if len(t) >= 8:
+                return t
+        if isinstance(x, ast.Constant) and isinstance(x.value, str) and len(_words(x.value)) >= 8:
+            return _words(x.value)
+    return None
+
+
+def _message_key(r):
+    """A stable key for a raise site: the template text of its message (first string constant), resolved through a local `message = ...` of the same block."""
+    t = _first_text(r)
+    if t:
+        return t
+    names = [x.id for x in ast.walk(r.exc) if isinstance(x, ast.Name)] if r.exc is not None else []
+    p_ = getattr(r, "_parent", None)
+    for field in ("body", "orelse"):
+        blk = getattr(p_, field, None)
+        if isinstance(blk, list) and any(x is r for x in blk):
+            for st in reversed(blk[: [k for k, x in enumerate(blk) if x is r][0]]):
+                if isinstance(st, (ast.Assign, ast.AugAssign)):
+                    tg = st.targets[0] if isinstance(st, ast.Assign) else st.target
+                    if isinstance(tg, ast.Name) and tg.id in names:
+                        t = _first_text(st.value)
+                        if t:
+                            return t
+    return ast.unparse(r.exc)[:70] if r.exc is not None else "raise"
+
+
+def validation_sites(repo):
+    """[{function, key, error, guards:[[test text, polarity], ...]}] for every raise of a dedicated invalid-input class in the loader modules"""
+    from ..core.cfg import guards_of as _g
+
+    out = []
+    for m in VALIDATOR_MODULES:
+        for fi in repo.module(m).all_functions():
+            for r in own_nodes(fi.node):
+                if isinstance(r, ast.Raise) and r.exc is not None and isinstance(r.exc, ast.Call) and ast.unparse(r.exc.func) in DEDICATED:
+                    if any(isinstance(p_, ast.ExceptHandler) for p_ in ancestors(r)):
+                        continue  # a wrap of another error, not a rule of its own
+                    g = [[ast.unparse(t), bool(pol)] for t, pol in branch_guards(r)]
+                    out.append({"function": "%s:%s" % (m, fi.qualname), "key": _message_key(r), "error": ast.unparse(r.exc.func), "guards": g})
+                elif isinstance(r, ast.Assert) and (m, fi.qualname) in ASSERTING_VALIDATORS:
+                    # an assertion of a validator whose AssertionError the caller converts into the dedicated error: refused when the test is false
+                    g = [[ast.unparse(r.test), False]] + [[ast.unparse(t), bool(pol)] for t, pol in branch_guards(r)]
+                    key = (_first_text(r.msg) if r.msg is not None else None) or _words(ast.unparse(r.test))
+                    out.append({"function": "%s:%s" % (m, fi.qualname), "key": key, "error": ASSERTING_VALIDATORS[(m, fi.qualname)], "guards": g})
+    return out
+
+
+def r18f(ctx, repo):
+    import json
+    import os
+
+    from ..core import boolx as B
+
+    ctx.rule("R18f", "the validation rules of the loaders are still there and still say the same thing: every refusal confirmed by reading (tables/c18_validation.json: function, message template, the if / elif / else conditions that lead to it) exists on the tree with an equivalent condition (truth table over the condition's atoms, so a rewrite that means the same passes); a refusal that disappeared, or whose condition changed, lets a file that breaks a documented rule through")
+    table = json.load(open(os.path.join(os.path.dirname(__file__), "tables", "c18_validation.json")))
+    now = validation_sites(repo)
+    by = {}
+    for e in now:
+        by.setdefault((e["function"], e["key"]), []).append(e)
+    anywhere = {}
+    for e in now:
+        anywhere.setdefault(e["key"], []).append(e)
+    seen = {}
+    n = 0
+
+    def cond_of(guards):
+        return B.cond([(ast.parse(t, mode="eval").body, pol) for t, pol in guards])
+
+    for want in table:
+        k = (want["function"], want["key"])
+        idx = seen.get(k, 0)
+        seen[k] = idx + 1
+        cands = by.get(k) or anywhere.get(want["key"]) or []
+        m, q = want["function"].split(":")
+        try:
+            fi = repo.func(m, q)
+        except Exception:
+            fi = "atomica/%s.py" % m
+        n += 1
+        if not cands:
+            ctx.fail("R18f", fi, getattr(fi, "node", None), "the refusal `%s...` (%s) is gone from %s: input that breaks this rule is now accepted (or fails later with an internal error)" % (want["key"][:60], want["error"], want["function"]), stmt_text="rule-missing:%s#%d" % (want["key"][:50], idx))
+            continue
+        try:
+            w = cond_of(want["guards"])
+            ok = any(B.equivalent(cond_of(c["guards"]), w) for c in cands)
+        except (ValueError, SyntaxError):
+            ok = any(sorted(map(tuple, c["guards"])) == sorted(map(tuple, want["guards"])) for c in cands)
+        if ok:
+            ctx.ok("R18f", fi, "refusal `%s` under the confirmed condition" % want["key"][:50])
+        else:
+            cur = cands[min(idx, len(cands) - 1)]
+            ctx.fail("R18f", fi, getattr(fi, "node", None), "the refusal `%s...` in %s is now reached under `%s`, confirmed condition was `%s`: files that break this rule in the cases no longer covered are accepted" % (want["key"][:50], want["function"], " and ".join(("" if p_ else "not ") + "(" + t[:60] + ")" for t, p_ in cur["guards"])[:300], " and ".join(("" if p_ else "not ") + "(" + t[:60] + ")" for t, p_ in want["guards"])[:300]), stmt_text="rule-changed:%s#%d" % (want["key"][:50], idx))
+    extra = [e for e in now if (e["function"], e["key"]) not in {(w["function"], w["key"]) for w in table}]
+    for e in extra[:20]:
+        ctx.note("R18f", "refusal not in the confirmed table (new rule): %s `%s`" % (e["function"], e["key"][:60]))
+    ctx.require(n >= 100, "R18f: the confirmed table shrank (%d entries)" % n)
